@@ -946,3 +946,67 @@ func mask1(w int) uint64 {
 	}
 	return mask(w)
 }
+
+// Subst rebuilds t with variables replaced according to m (by variable name).
+func (c *Ctx) Subst(t *Term, m map[string]*Term, memo map[int]*Term) *Term {
+	if r, ok := memo[t.ID]; ok {
+		return r
+	}
+	var r *Term
+	switch t.Op {
+	case OpConst:
+		r = t
+	case OpVar:
+		if v, ok := m[t.Name]; ok {
+			r = v
+		} else {
+			r = t
+		}
+	default:
+		args := make([]*Term, len(t.Args))
+		changed := false
+		for i, a := range t.Args {
+			args[i] = c.Subst(a, m, memo)
+			if args[i] != a {
+				changed = true
+			}
+		}
+		if !changed {
+			r = t
+		} else {
+			r = c.rebuild(t, args)
+		}
+	}
+	memo[t.ID] = r
+	return r
+}
+
+func (c *Ctx) rebuild(t *Term, a []*Term) *Term {
+	switch t.Op {
+	case OpNot:
+		return c.Not(a[0])
+	case OpNeg:
+		return c.Neg(a[0])
+	case OpZExt:
+		return c.ZExt(a[0], t.W)
+	case OpSExt:
+		return c.SExt(a[0], t.W)
+	case OpExtract:
+		return c.Extract(a[0], int(t.Val), t.W)
+	case OpConcat:
+		return c.Concat(a[0], a[1])
+	case OpIte:
+		return c.Ite(a[0], a[1], a[2])
+	case OpEq:
+		return c.Eq(a[0], a[1])
+	case OpULt, OpULe, OpSLt, OpSLe:
+		return c.Cmp(t.Op, a[0], a[1])
+	case OpBAnd:
+		return c.BAnd(a...)
+	case OpBOr:
+		return c.BOr(a...)
+	case OpBNot:
+		return c.BNot(a[0])
+	}
+	return c.Bin(t.Op, a[0], a[1])
+}
